@@ -572,7 +572,7 @@ def random_case(rng, tier, lens=None, plain=False):
         elif ck == "int":
             cs, h = rng.randint(-maxl, max(0, maxl - 1)), True
         else:
-            cs, h = gen.gen_slice(rng, maxl), True
+            cs, h = gen.gen_slice(rng, maxl, far=True), True
         try:
             kind, cells = model.select_cells(lens, rs, cs, h)
         except model.Refused:
